@@ -157,24 +157,29 @@ func newStore(e envSpec, id uint64, regionCount, leaderCount int) *core.StoreInf
 
 func newCluster(e envSpec) (*mockcluster.Cluster, context.CancelFunc) {
 	ctx, cancel := context.WithCancel(context.Background())
-	c := mockcluster.NewCluster(ctx, config.NewTestOptions())
-	c.SetMaxReplicas(e.Replicas)
+	// the replication config is set before the cluster is created: NewCluster
+	// initialises the rule manager (default rule = max-replicas voters with the
+	// location labels) when placement rules are enabled, which is the default
+	opts := config.NewTestOptions()
+	rc := opts.GetReplicationConfig().Clone()
+	rc.MaxReplicas = uint64(e.Replicas)
+	rc.EnablePlacementRules = e.Rules > 0
+	rc.LocationLabels = nil
 	if e.Layout == 1 {
-		c.SetLocationLabels([]string{"zone"})
+		rc.LocationLabels = []string{"zone"}
 	}
+	opts.SetReplicationConfig(rc)
+	c := mockcluster.NewCluster(ctx, opts)
 	c.SetLabelPropertyConfig(config.LabelPropertyConfig{opt.RejectLeader: {{Key: "noleader", Value: "true"}}})
 	for i := 0; i < e.N; i++ {
 		c.PutStore(newStore(e, uint64(i+1), 0, 0))
 	}
-	if e.Rules > 0 {
-		c.SetEnablePlacementRules(true)
-		switch e.Rules {
-		case 2:
-			must(c.RuleManager.SetRule(&placement.Rule{GroupID: "pd", ID: "learner", Role: placement.Learner, Count: 1,
-				LabelConstraints: []placement.LabelConstraint{{Key: "engine", Op: placement.In, Values: []string{"tiflash"}}}}))
-		case 3:
-			must(c.RuleManager.SetRule(&placement.Rule{GroupID: "pd", ID: "learner", Role: placement.Learner, Count: 1}))
-		}
+	switch e.Rules {
+	case 2:
+		must(c.RuleManager.SetRule(&placement.Rule{GroupID: "pd", ID: "learner", Role: placement.Learner, Count: 1,
+			LabelConstraints: []placement.LabelConstraint{{Key: "engine", Op: placement.In, Values: []string{"tiflash"}}}}))
+	case 3:
+		must(c.RuleManager.SetRule(&placement.Rule{GroupID: "pd", ID: "learner", Role: placement.Learner, Count: 1}))
 	}
 	// peer ids handed out by the allocator stay away from store ids and the inputs' peer ids
 	for i := 0; i < 2000; i++ {
